@@ -413,7 +413,9 @@ func (c *creator) build() *Slim {
 
 	if *c.option.LeafPrefix {
 		ns.LeafPrefixes = &VLenArray{}
-		ns.LeafPrefixes.PresenceBM = newBM(c.leafPrefixIndexes, c.leafCnt, "r64")
+		// Leaf prefixes are indexed by leaf ordinal, for every leaf, also
+		// when no values are stored(c.leafCnt is 0 then).
+		ns.LeafPrefixes.PresenceBM = newBM(c.leafPrefixIndexes, c.nodeCnt-innerCnt, "r64")
 		ns.LeafPrefixes.PositionBM = newBM(stepToPos(c.leafPrefixLens, 0), 0, "s32")
 		ns.LeafPrefixes.Bytes = c.leafPrefixes
 	}
